@@ -149,6 +149,7 @@ void check_pruning(sim::RunCtx& ctx) {
 }
 
 void run_c16(sim::RunCtx& ctx) {
+    gen::g_row_cap = 0;
     common::apply_benign_knobs();
     if (sim::draw(3) == 2) check_writer_page_stats(ctx); else check_pruning(ctx);
 }
